@@ -1,10 +1,163 @@
-import Driver.Util
+import Driver.KV
+import Hv.Data.Expiry
 
-/-! Placeholder: the line-protocol driver of domain C30 is not written yet. -/
+/-! Domain C30: the expiry-aware requests answered from `Hv.Data.Model30` (the data requests
+    from `Hv.Data.Model` as in C06).  A reply is flagged when it disagrees with the expiry
+    definition applied to the stored records: a record with a pre-epoch expiry is shown without
+    ExpiredAt, or an index-driven path (ShiftExpired, PatchExpired, GetByIndex) returns other keys
+    than `expired` / `exp ≠ 0` select from the store. -/
 namespace Driver.C30
+open Hv.Data Driver.KV
 
-def run (_args : List String) : IO UInt32 := do
-  IO.eprintln "drv: domain C30 has no driver yet"
-  return 2
+def siteOf (kv : List (String × String)) (name : String) : Site :=
+  ⟨boolOf (arg kv (name ++ "Guard0")), boolOf (arg kv (name ++ "Strict"))⟩
+
+def expCfgOfArgs (kv : List (String × String)) : ExpCfg :=
+  { isExpired := siteOf kv "isExpired", shift := siteOf kv "shift", select := siteOf kv "select",
+    selectCap := siteOf kv "selectCap", coldBuildNe0 := boolOf (arg kv "coldBuildNe0"),
+    addBeaconsNe0 := boolOf (arg kv "addBeaconsNe0"), saveBranchNe0 := boolOf (arg kv "saveBranchNe0"),
+    reindexNe0 := boolOf (arg kv "reindexNe0"), patchReaddNe0 := boolOf (arg kv "patchReaddNe0"),
+    filterGuard0 := boolOf (arg kv "filterGuard0"), isEmptyEq0 := boolOf (arg kv "isEmptyEq0"),
+    setZeroNone := boolOf (arg kv "setZeroNone"), clearWins := boolOf (arg kv "clearWins"),
+    wireGet := if arg kv "wireGet" == "ne0" then .ne0 else .gt0 }
+
+def parsePatchMeta (s : String) : Option (Option PatchMeta) :=
+  if s == "-" then some none
+  else match s.splitOn "|" with
+    | [ua, ub, ca, cb, se, cl] =>
+      some (some { setUa := ua == "1", ub := ub, setCa := ca == "1", cb := cb,
+                   setExp := if se.isEmpty then none else some (parseTime se), clearExp := cl == "1" })
+    | _ => none
+
+def fop? : String → Option FOp
+  | "lt" => some .lt | "le" => some .le | "gt" => some .gt | "ge" => some .ge | "eq" => some .eq | "ne" => some .ne
+  | "empty" => some .empty | "notempty" => some .notEmpty | _ => none
+
+def parse30 (now : Int) (f : List String) : Option Req30 :=
+  match f with
+  | ["shiftexp", n] => n.toNat?.map .shiftExp
+  | ["patch", c, k, m] => (parsePatchMeta m).map fun pm => .patch (c == "1") k pm
+  | ["patchexp", n, m] =>
+    match n.toNat?, parsePatchMeta m with
+    | some n, some (some pm) => some (.patchExp n pm)
+    | _, _ => none
+  | ["getidx", ord, frm, lim] =>
+    match frm.toNat?, lim.toNat? with
+    | some a, some b => some (.getIdx (ord == "desc") a b)
+    | _, _ => none
+  | ["fexp", op] => (fop? op).map fun o => .filterExp o 0
+  | ["fexp", op, ts] => (fop? op).map fun o => .filterExp o (if ts == "now" then now else parseTime ts)
+  | _ => (parseReq f).map .kv
+
+def showPStatus : PStatus → String
+  | .patched => "PATCHED" | .created => "CREATED" | .keyNotFound => "KEY_NOT_FOUND"
+  | .typeMismatch => "TYPE_MISMATCH" | .encodingNotSupported => "ENCODING_NOT_SUPPORTED"
+
+/-- expiry as `expirationTimeAsTime` + `timestamppb` show it: everything but 0 -/
+def showExpRaw (ck : Clock) (t : Int) : String := showTime ck t
+
+def showResp30 (ck : Clock) (verb : String) : Resp30 → String
+  | .kv r => showResp ck verb r
+  | .recs l => join verb (l.map fun p => p.1 ++ "=" ++ showRec ck p.2)
+  | .keys l => join verb l
+  | .pstat s => verb ++ " " ++ showPStatus s
+  | .pexp l => join verb (l.map fun p => p.1 ++ "=" ++ showPStatus p.2.1 ++ "|" ++ showExpRaw ck p.2.2)
+  | .err c => "err:" ++ c
+  | .skip => "skip"
+
+structure D30 where
+  cfg : Cfg
+  e : ExpCfg
+  s : State := {}
+  ck : Clock := {}
+  opNo : Nat := 0
+  inCase : Bool := false
+  lastTag : Option Tag := none
+
+/-- keys of the records a reply shows -/
+def shownKeys : Resp30 → List Key
+  | .recs l => l.map (·.1)
+  | .kv (.kvs l) => l.map (·.1)
+  | _ => []
+
+def storedExp (s : State) (k : Key) : Int :=
+  match AL.find k (Model.summon s).recs with
+  | some t => t.m.exp
+  | none => 0
+
+/-- reference selection over the stored records (by the definition, from the store alone) -/
+def refSorted (st : Spec.Store) : List (Key × Rec) :=
+  st.foldl (fun acc p =>
+    let rec ins : List (Key × Rec) → List (Key × Rec)
+      | [] => [p]
+      | q :: t => if p.2.m.exp < q.2.m.exp then p :: q :: t else q :: ins t
+    ins acc) []
+
+def refKeys (now : Int) (st : Spec.Store) : Req30 → Option (List Key)
+  | .shiftExp n =>
+    let l := (refSorted st).filter fun p => expired p.2.m.exp now
+    some ((if n = 0 then l else l.take n).map (·.1))
+  | .patchExp n _ =>
+    let l := (refSorted st).filter fun p => expired p.2.m.exp now
+    some ((if n = 0 then l else l.take n).map (·.1))
+  | .getIdx desc frm lim =>
+    let l := (refSorted st).filter fun p => decide (p.2.m.exp ≠ 0)
+    let l := (if desc then l.reverse else l).drop frm
+    some ((if lim = 0 then l else l.take lim).map (·.1))
+  | .filterExp op ref => some ((st.filter fun p => Model30.fopEval true true op p.2.m.exp ref).map (·.1))
+  | _ => none
+
+def replyKeys : Resp30 → List Key
+  | .recs l => l.map (·.1)
+  | .keys l => l
+  | .pexp l => l.map (·.1)
+  | _ => []
+
+def stepLine30 (d : D30) (line : String) : D30 × String :=
+  let f := line.splitOn " "
+  match f with
+  | "case" :: _ :: rest =>
+    let kind := (rest.filterMap fun a => match a.splitOn "=" with | ["kind", v] => some (kindOf v) | _ => none).headD .mem
+    ({ d with s := { kind := kind }, ck := {}, opNo := 0, inCase := true, lastTag := none }, line)
+  | _ =>
+    if !d.inCase then (d, "no-case")
+    else match f with
+    | ["wait", ms] =>
+      if d.s.dead then (d, "skip")
+      else ({ d with ck := { d.ck with now := d.ck.now + (ms.toInt?.getD 0) * 1000000 } }, "ok")
+    | _ =>
+      let verb := f.headD ""
+      if verb == "closeidle" || verb == "restart" || verb == "close" then
+        if d.s.dead then (d, "skip") else ({ d with s := (Model.closeStep d.cfg d.s).1 }, "ok")
+      else
+        let opNo := d.opNo + 1
+        let now := d.ck.now + opNo
+        match parse30 now f with
+        | none => (d, "bad-op")
+        | some req =>
+          let ck : Clock := { d.ck with nows := now :: d.ck.nows }
+          let o := Model30.step d.cfg d.e ieee now d.s req
+          let before := Model.abs d.s
+          -- (1) a shown record whose stored expiry is pre-epoch
+          let pre := !d.s.dead && (shownKeys o.r).any fun k => decide (storedExp d.s k < 0)
+          -- (2) an expiry-driven selection that differs from the definition applied to the store
+          -- equal expiries on different keys leave the index order open (unstable sort): no verdict then
+          let exps := (before.map fun p => p.2.m.exp).filter (· != 0)
+          let ties := decide (exps.eraseDups.length ≠ exps.length)
+          let stale := !d.s.dead && !ties && (match refKeys now before req with
+            | some ks => (match o.r with | .err _ => false | _ => decide (ks ≠ replyKeys o.r))
+            | none => false)
+          let tags := match req with | .kv r => (Model.step d.cfg ieee now d.s r).tags | _ => []
+          let lastTag := match pickTag tags with | some t => some t | none => d.lastTag
+          let flag :=
+            if pre then "\t#F:C30-preepoch-expiry-invisible"
+            else if stale then "\t#F:C30-" ++ (match lastTag with | some t => tagId t | none => "expiry-paths-disagree")
+            else ""
+          ({ d with s := o.s, ck := ck, opNo := opNo, lastTag := lastTag }, showResp30 ck verb o.r ++ flag)
+
+def run (args : List String) : IO UInt32 := do
+  let kv := parseArgs args
+  lineLoop stepLine30 { cfg := cfgOfArgs kv, e := expCfgOfArgs kv }
+  return 0
 
 end Driver.C30
